@@ -25,7 +25,10 @@ from __future__ import annotations
 
 import contextlib
 import random
+import queue as _queue
 import threading as _th
+import time as _time
+import types as _types
 import traceback
 
 
@@ -265,20 +268,30 @@ def sim():
     return _SIM if _SIM is not None else _DeadSim()
 
 
-class Empty(Exception):
-    pass
-
-
-class Full(Exception):
-    pass
+# the library may catch these by module attribute (`queue.Empty`) or by a name imported from `queue`: use the real ones
+Empty = _queue.Empty
+Full = _queue.Full
 
 
 class VQueue:
     def __init__(self, maxsize=0):
         self.items = []
+        self.maxsize = maxsize or 0
+
+    def full(self):
+        return self.maxsize > 0 and len(self.items) >= self.maxsize
 
     def put(self, item, block=True, timeout=None):
-        sim().yield_("put")
+        s = sim()
+        if self.maxsize > 0:
+            if not block:
+                s._op()
+                if self.full():
+                    raise Full()
+            elif not s.block(lambda: not self.full(), timeout, "put"):
+                raise Full()
+        else:
+            s.yield_("put")
         self.items.append(item)
 
     def put_nowait(self, item):
@@ -335,6 +348,46 @@ class VLock:
 
     def locked(self):
         return self.owner is not None
+
+    def __enter__(self):
+        self.acquire()
+        return self
+
+    def __exit__(self, *a):
+        self.release()
+
+
+class VRLock:
+    def __init__(self):
+        self.owner = None
+        self.depth = 0
+
+    def acquire(self, blocking=True, timeout=-1):
+        s = sim()
+        if self.owner is s.cur:
+            self.depth += 1
+            return True
+        if not blocking:
+            if self.owner is None:
+                self.owner, self.depth = s.cur, 1
+                return True
+            return False
+        forever = timeout is None or timeout < 0
+        while True:
+            s.block(lambda: self.owner is None, None if forever else timeout, "lock")
+            if self.owner is None:
+                self.owner, self.depth = s.cur, 1
+                return True
+            if not forever:
+                return False
+
+    def release(self):
+        if self.owner is not sim().cur:
+            raise RuntimeError("cannot release un-acquired lock")
+        self.depth -= 1
+        if self.depth == 0:
+            self.owner = None
+            sim().yield_("release")
 
     def __enter__(self):
         self.acquire()
@@ -429,33 +482,60 @@ class _VTime:
         return sim().now
 
 
-_PATCHES = [
-    ("nxslib.thread", "threading", lambda: _NS(Thread=VThread, Event=VEvent, current_thread=vcurrent_thread)),
-    ("nxslib.comm", "queue", lambda: _NS(Queue=VQueue, Empty=Empty, Full=Full)),
-    ("nxslib.comm", "Lock", lambda: VLock),
-    ("nxslib.nxscope", "queue", lambda: _NS(Queue=VQueue, Empty=Empty, Full=Full)),
-    ("nxslib.nxscope", "Lock", lambda: VLock),
-    ("nxslib.dev", "Lock", lambda: VLock),
-    ("nxslib.intf.dummy", "queue", lambda: _NS(Queue=VQueue, Empty=Empty, Full=Full)),
-    ("nxslib.intf.dummy", "Lock", lambda: VLock),
-    ("nxslib.intf.dummy", "Event", lambda: VEvent),
-    ("nxslib.intf.dummy", "time", lambda: _VTime),
-]
+def _queue_ns():
+    return _NS(Queue=VQueue, SimpleQueue=VQueue, LifoQueue=VQueue, Empty=Empty, Full=Full)
 
 
+def _threading_ns():
+    return _NS(Thread=VThread, Event=VEvent, Lock=VLock, RLock=VRLock, current_thread=vcurrent_thread,
+               main_thread=lambda: _MAIN_STUB, get_ident=lambda: id(sim().cur))
+
+
+def _virtual_for(value):
+    """the virtual stand-in for a standard concurrency / time primitive bound to a module global of the code under test,
+    however it was imported (`import queue`, `from queue import Queue`, `import threading`, `from threading import Lock`…);
+    None = leave the binding alone (anything else, e.g. a `contextlib.nullcontext` used "as a lock", runs as it is)"""
+    if value is _queue:
+        return _queue_ns()
+    if value is _th:
+        return _threading_ns()
+    if value is _time:
+        return _VTime
+    table = {id(_queue.Queue): VQueue, id(_queue.SimpleQueue): VQueue, id(_queue.LifoQueue): VQueue,
+             id(_th.Lock): VLock, id(_th.RLock): VRLock, id(_th.Event): VEvent, id(_th.Thread): VThread,
+             id(_th.current_thread): vcurrent_thread, id(_time.sleep): _VTime.sleep, id(_time.time): _VTime.time,
+             id(_time.monotonic): _VTime.monotonic}
+    return table.get(id(value))
+
+
+# modules of the code under test whose `time` is NOT virtualised (none needs it) are not listed: every loaded nxslib module is
+# scanned; `time` is rebound only where the module binds it
 @contextlib.contextmanager
 def installed(s: Sim):
-    """rebind the module globals for the duration of the block"""
+    """rebind, for the duration of the block, every module global of the loaded `nxslib` modules that is bound to a
+    standard queue / threading / time primitive"""
     import importlib
+    import sys
     global _SIM
+    for mod in ("nxslib.thread", "nxslib.comm", "nxslib.nxscope", "nxslib.dev", "nxslib.intf.dummy", "nxslib.intf.iintf"):
+        try:
+            importlib.import_module(mod)
+        except Exception:  # noqa: BLE001 - a module that does not import is the check's business, not ours
+            pass
     saved = []
     prev = _SIM
     _SIM = s
     try:
-        for mod, attr, mk in _PATCHES:
-            m = importlib.import_module(mod)
-            saved.append((m, attr, getattr(m, attr)))
-            setattr(m, attr, mk())
+        for name, m in list(sys.modules.items()):
+            if m is None or not (name == "nxslib" or name.startswith("nxslib.")) or name.startswith("nxslib.intf.serial"):
+                continue
+            for attr, val in list(vars(m).items()):
+                if attr.startswith("__"):
+                    continue
+                v = _virtual_for(val)
+                if v is not None:
+                    saved.append((m, attr, val))
+                    setattr(m, attr, v)
         yield s
     finally:
         for m, attr, old in saved:
